@@ -252,6 +252,17 @@ def run(ctx):
             cfg = kfacsim.Config(rng, world=world, k=k, method=method, sym=True, prediv=(method == 'eigen' and rng.random() < 0.5))
             cfg.ops = (['f1'] * cfg.accum + ['s']) * rng.randrange(1, 3)
             cfgs.append(cfg)
+    # directed corner: layers without bias (their gradient is installed / read as a view of the weight gradient) on
+    # gradient-receiver ranks (MEM-OPT / HYBRID-OPT) with active clipping: the gradient written back is nu*V on every rank
+    from fractions import Fraction
+    for world, k in ((2, 1), (4, 1), (4, 2)):
+        cfg = kfacsim.Config(rng, world=world, k=k)
+        cfg.arch = [tuple(list(a[:-1]) + [False]) if a[0] in ('lin', 'conv') else a for a in cfg.arch]
+        cfg.hyper['kl_clip'] = Fraction(1, 10**5)
+        cfg.hyper['lr'] = Fraction(1, 10)
+        cfg.keepgrad = rng.random() < 0.5
+        cfg.ops = (['f1'] * cfg.accum + ['s']) * rng.randrange(2, 4)
+        cfgs.append(cfg)
     kfacsim.run_batch(ctx, cfgs, ('grads',), oracles=(kfacsim.oracle_reference,), whole_only_oracles=False)
 
 
